@@ -6,6 +6,8 @@ import PyYetiVerif.Model.PsdOct
 import PyYetiVerif.Model.Resample
 import PyYetiVerif.Model.FixtimeFull
 import PyYetiVerif.Model.FixtimeDespike
+import PyYetiVerif.Model.PsdMod
+import PyYetiVerif.Model.ResampleDtype
 /-! Line protocol for C19.  Sections of a request are separated by `|`.
 Rationals travel as `n` or `n/d` (exact); floats as decimal `UInt64` bit patterns.
 
@@ -33,7 +35,9 @@ exact (`Rat`)
 `fxt deldrops delout hold | dropval sr tol base spikeN | told… | data… | sortvec… | spike flags…`
                                     → `fixtimeFull`: `early|tnew…|src…|dropouts|outtimes|spikes|alldrops|keep|sr|stats|tp|warnS warnL|shift`
                                       or `raises`
+`rdt int|float32|float64`           → `resample`'s storage types: `mean buffer out`
 numeric (`Float`)
+`pmx row… ; row… ; …`               → `psdmod`'s last step: the row maxima (rows separated by `;`) or `raises`
 `area f p f p …`                    → `psd.area`
 `ilog x… | f p f p …` / `ilin …`    → `psd.interp(linear=False|True)`
 `edges c…`                          → `_get_fl_fu`: `FL…|FU…|lin` (`lin` = 1 when the linear branch was taken)
@@ -198,6 +202,19 @@ def answer (line : String) : String :=
         | some r =>
           let st := match r.stats with | some st => fmtStats st | none => "none"
           pure s!"{if r.early then 1 else 0}|{fmtRats r.tnew}|{fmtNats r.src}|{fmtOptNats r.dropouts}|{fmtNats r.outtimes}|{fmtOptNats r.spikes}|{fmtNats r.alldrops}|{fmtNats r.keep}|{fmtRat r.sr}|{st}|{fmtNats r.tp}|{if r.warnSmall then 1 else 0} {if r.warnLarge then 1 else 0}|{fmtRat r.shift}"
+    | [["rdt", d]] => do
+        let d ← match d with
+          | "int" => some Resample.DType.int | "float32" => some Resample.DType.float32
+          | "float64" => some Resample.DType.float64 | _ => none
+        let nm := fun (t : Resample.DType) => match t with
+          | .int => "int" | .float32 => "float32" | .float64 => "float64"
+        pure s!"{nm (Resample.meanType d)} {nm (Resample.bufferType d)} {nm (Resample.outType d)}"
+    | [("pmx" :: rest)] => do
+        let rows := (" ".intercalate rest).splitOn ";"
+        let rows ← rows.mapM fun r => parseFs (words r)
+        match PsdMod.psdmodOf rows with
+        | some p => pure (fmtFs p)
+        | none => pure "raises"
     | [["rlen", ln, p, q]] => do
         let ln ← ln.toNat?; let p ← p.toNat?; let q ← q.toNat?
         if p = 0 ∨ q = 0 then none else pure (toString (Resample.resampleLen ln p q))
